@@ -93,6 +93,8 @@ func main() {
 		os.Exit(cmdRun(os.Args[2:]))
 	case "replay":
 		os.Exit(cmdReplay(os.Args[2:]))
+	case "externals":
+		os.Exit(cmdExternals())
 	case "selftest":
 		os.Exit(cmdSelftest(os.Args[2:]))
 	}
